@@ -7,6 +7,7 @@ import (
 	"encoding/json"
 	"fmt"
 	"io"
+	"math/rand"
 	"regexp"
 	"sort"
 	"strings"
@@ -31,6 +32,8 @@ type sdScenario struct {
 	Starts []string      `json:"starts"` // "App <- ep"; empty = every endpoint of the model
 	Text   bool          `json:"text"`
 	Raw    bool          `json:"raw"` // include raw diagram lines
+	// Opts: draw each start also with options: up to two other endpoints as blackboxes and grouping by the attribute "team"
+	Opts bool `json:"opts"`
 }
 
 var (
@@ -42,6 +45,8 @@ var (
 	reOpen   = regexp.MustCompile(`^(opt|alt|loop|group|par)( .*)?$`)
 	reElse   = regexp.MustCompile(`^else( .*)?$`)
 	reNote   = regexp.MustCompile(`^note `)
+	reBox    = regexp.MustCompile(`^box "(.*)"`)
+	reBoxMem = regexp.MustCompile(`^participant (\S+)$`)
 )
 
 // sdParse turns PlantUML sequence text into events; unknown lines become {"e":"line"} events.
@@ -62,8 +67,10 @@ func sdParse(t int, text string) []tr.Ev {
 			evs = append(evs, tr.Ev{"t": t, "e": "note"})
 		case strings.HasPrefix(l, "== "):
 			evs = append(evs, tr.Ev{"t": t, "e": "sep", "text": strings.Trim(l, "= ")})
-		case strings.HasPrefix(l, "box "):
-			evs = append(evs, tr.Ev{"t": t, "e": "open", "kind": "box", "text": l})
+		case reBox.MatchString(l):
+			evs = append(evs, tr.Ev{"t": t, "e": "open", "kind": "box", "text": reBox.FindStringSubmatch(l)[1]})
+		case reBoxMem.MatchString(l):
+			evs = append(evs, tr.Ev{"t": t, "e": "boxmember", "alias": reBoxMem.FindStringSubmatch(l)[1]})
 		case reDecl.MatchString(l):
 			m := reDecl.FindStringSubmatch(l)
 			evs = append(evs, tr.Ev{"t": t, "e": "declare", "kind": m[1], "label": m[2], "alias": m[3]})
@@ -173,7 +180,7 @@ func sortedAppNames(m *sysl.Module) []string {
 	return names
 }
 
-func genSeqDiag(m *sysl.Module, start string) (string, error, string) {
+func genSeqDiag(m *sysl.Module, start string, cut [][]string, group string) (string, error, string) {
 	type res struct {
 		s   string
 		err error
@@ -193,6 +200,13 @@ func genSeqDiag(m *sysl.Module, start string) (string, error, string) {
 		l := &cmdutils.Labeler{}
 		p := &sequencediagram.SequenceDiagParam{Title: "t"}
 		p.Endpoints = []string{start}
+		p.Group = group
+		if len(cut) > 0 {
+			p.Blackboxes = map[string]*cmdutils.Upto{}
+			for _, c := range cut {
+				p.Blackboxes[c[0]+" <- "+c[1]] = &cmdutils.Upto{VisitCount: 0, Comment: "not shown here", ValueType: cmdutils.BBCommandLine}
+			}
+		}
 		p.AppLabeler = l
 		p.EndpointLabeler = l
 		r.s, r.err = sequencediagram.GenerateSequenceDiag(m, p, logger)
@@ -236,15 +250,49 @@ func runSeqDiag(in, out string, _ []string) error {
 				starts = append(starts, e.App+" <- "+e.Ep)
 			}
 		}
+		type variant struct {
+			start string
+			cut   [][]string
+			group string
+		}
+		var vs []variant
+		rng := rand.New(rand.NewSource(sc.Seed*31 + int64(sc.ID)))
+		groups := map[string]string{}
+		for an, a := range cr.m.GetApps() {
+			if at := a.GetAttrs()["team"]; at != nil {
+				groups[an] = at.GetS()
+			}
+		}
 		for _, st := range starts {
+			vs = append(vs, variant{start: st, cut: [][]string{}})
+			if sc.Opts {
+				v := variant{start: st, cut: [][]string{}}
+				for _, e := range eps {
+					if e.App+" <- "+e.Ep != st && len(e.Stmts) > 0 && len(v.cut) < 2 && rng.Intn(3) == 0 {
+						v.cut = append(v.cut, []string{e.App, e.Ep})
+					}
+				}
+				if rng.Intn(2) == 0 {
+					v.group = "team"
+				}
+				vs = append(vs, v)
+			}
+		}
+		for _, v := range vs {
+			st := v.start
 			id++
 			parts := strings.SplitN(st, " <- ", 2)
-			begin := tr.Ev{"t": id, "e": "begin", "scn": sc.ID, "start": st, "sapp": parts[0], "sep": parts[1], "eps": eps}
+			gr := map[string]string{}
+			if v.group != "" {
+				gr = groups
+			}
+			begin := tr.Ev{"t": id, "e": "begin", "scn": sc.ID, "start": st, "sapp": parts[0], "sep": parts[1], "eps": eps,
+				"cut": v.cut, "groups": gr, "group": v.group}
 			if sc.Text {
 				begin["text"] = res.Files[0].Text()
 			}
 			evs := []tr.Ev{begin}
-			s, err, pan := genSeqDiag(cr.m, st)
+			s, err, pan := genSeqDiag(cr.m, st, v.cut, v.group)
 			switch {
 			case pan != "":
 				evs = append(evs, tr.Ev{"t": id, "e": map[bool]string{true: "timeout", false: "panic"}[pan == "timeout"], "msg": pan})
